@@ -4,6 +4,26 @@ import json, os, sys
 HERE = os.path.dirname(os.path.dirname(os.path.abspath(__file__)))
 
 CHECKS = {
+ "C17": dict(
+   technique="round trip generator AST -> text -> Lark tree -> canonical AST, differential against an independent precedence-climbing parser, multi-process determinism",
+   text="Canonical structural forms of the repository's Lark tree and of an independent C parser are compared for the corpus, for an "
+        "exhaustive table (all 18x18 binary operator pairs, operators against ?:, unary, casts, parentheses, no-space spellings; assignment "
+        "operators; dangling else at depth 1-3; statement-expressions; ~40 operand look-alike tokens) and for Hypothesis programs printed "
+        "with minimal and redundant parentheses and varied whitespace. Determinism: the same texts are parsed in five processes with "
+        "different PYTHONHASHSEED, by fresh and reused parser objects and through both parser construction sites; tree digests must agree.",
+   note="Canonical form drops parentheses, nested block braces and empty statements on both sides. Trusted: vlib/cref/parse.py (C11 6.5 "
+        "precedence), vlib/cref/canon.py. Float literals are not modelled.",
+   design="7/C17"),
+ "C20": dict(
+   technique="differential against an independent preprocessor (gcc -E + own brace-matching do-while remover) on bundled and Hypothesis-generated macro sets",
+   text="run_preprocess_steps() is executed in scratch git repositories: on the bundled sources (regeneration must reproduce the bundled "
+        "resolved file; every instruction must be token-equal to gcc -E plus an independent do-while(0) remover; patch bookkeeping; no "
+        "surviving macro; names one-to-one) and on generated macro/patch/shortcode sets (duplicates, continuations, comment shapes, guarded "
+        "blocks, nested/sequential wrappers, look-alike identifiers) against an independently assembled 'last patch wins' header; "
+        "replace_do_while_0 is also judged as a pure function on generated strings.",
+   note="Trusted: gcc's preprocessor, the token comparison and remover in vlib/checks/c20.py. Generated files stay within the shapes of the "
+        "bundled files. Scratch copies live under the system temp dir only for the duration of the command.",
+   design="7/C20"),
  "C09": dict(
    technique="exhaustive literal-spelling table + sampled literal pairs, differential against a C11 reference and folded-vs-unfolded metamorphic relation",
    text="Every C-valid literal spelling (19 boundary values x decimal/hex x 7 suffixes) is observed through a 64-bit write, a shift, sizeof, "
